@@ -89,6 +89,11 @@ func runOne(o op, dir string, n int) (r result) {
 			}
 			tree = lastTree
 		} else {
+			if err := gen.CheckNesting(o.Src); err != nil { // as cmd/gosk/main.go does before parsing
+				r.ParseErr = fmt.Sprintf("%+v", err)
+				haveTree = false
+				return
+			}
 			t, err := gen.Parse("", o.Src, gen.Entrypoint("Program"), gen.Debug(false))
 			if err != nil {
 				r.ParseErr = fmt.Sprintf("%+v", err)
